@@ -128,4 +128,24 @@ domains, every step's rows hold, the root constraints hold -/
 def Delivered (N : Nat) (defs : List Def) (steps : List Step) (roots : List Root) (Dom : Asg → Prop) (x y : Asg) : Prop :=
   (∀ v, v < N → (∀ d ∈ defs, d.res ≠ v) → y v = x v) ∧ Dom y ∧ (∀ s ∈ steps, s.Deliv y) ∧ (∀ r ∈ roots, r.sat y)
 
+
+/-- the variables a constraint reads -/
+def Con.vars : Con → List Var
+  | .linRange body _ _ => body.map (·.2)
+  | .linRhs _ body _ => body.map (·.2)
+  | .quadRange lin q _ _ => lin.map (·.2) ++ (q.map (·.2.1) ++ q.map (·.2.2))
+  | .quadRhs _ lin q _ => lin.map (·.2) ++ (q.map (·.2.1) ++ q.map (·.2.2))
+  | .indLin b _ _ body _ => b :: body.map (·.2)
+  | .sos1 vs _ => vs
+  | .sos2 vs _ => vs
+  | .func res _ f => res :: f.vars
+
+/-- a definition replaced by a gadget output `o` produced when `n` variables existed -/
+def Step.ofGadget (d : Def) (o : Out) (n : Nat) : Step :=
+  { d with Deliv := fun y => auxOk n y o.vars ∧ ∀ c ∈ o.cons, c.sat y, lo := n, hi := n + o.vars.length }
+
+/-- a definition delivered natively (the solver enforces `res = f(args)` exactly, whatever the context) -/
+def Step.native (d : Def) (N : Nat) : Step :=
+  { d with Deliv := fun y => y d.res = d.f.val y, lo := N, hi := N }
+
 end MpVerif.C01
